@@ -32,10 +32,14 @@ def check_item_func(repo):
                     names.add(n.func.attr if isinstance(n.func, ast.Attribute) else getattr(n.func, 'id', None))
                 if isinstance(n, ast.Name) and n.id == 'primitive_deriv':
                     names.add('find_item')
-            if names & {'_check_proof_item', '_check_proof_items'}:
+            if '_check_proof_item' in names or h.name == block_checker or h.name.startswith('check_proof'):
                 return False
             return bool(names & set(part))
+        block_checker = helper_name(repo)[0]
         f, done, left = inlined(func, want)
+        from ..cfg import inline_named_conditions
+        from ..normalize import as_func
+        f = as_func(f, inline_named_conditions(f.node))      # `trusted = macro.level is not None and ..; if not trusted:`
         _item_funcs[id(repo)] = (repo, f, done, left)
     return _item_funcs[id(repo)][1]
 
